@@ -156,7 +156,7 @@ func TestVerifC20Payload(t *testing.T) {
 			retry, err := n.Notify(ctx, alerts...)
 			where := fmt.Sprintf("batch [%s] max_alerts %d", strings.Join(names, ", "), max)
 			if err != nil || retry {
-				R.Violate("webhook-notify-failed", fmt.Sprintf("%s: %v", where, err), map[string]any{"part": "payload"})
+				R.Violate("webhook-notify-failed", fmt.Sprintf("%s: %v", where, err), map[string]any{"rerun": true, "part": "payload"})
 				continue
 			}
 			mu.Lock()
@@ -164,7 +164,7 @@ func TestVerifC20Payload(t *testing.T) {
 			mu.Unlock()
 			var m c20Msg
 			if err := json.Unmarshal(body, &m); err != nil {
-				R.Violate("payload-not-json", err.Error(), map[string]any{"part": "payload"})
+				R.Violate("payload-not-json", err.Error(), map[string]any{"rerun": true, "part": "payload"})
 				continue
 			}
 			listed := b
@@ -173,7 +173,7 @@ func TestVerifC20Payload(t *testing.T) {
 			}
 			fail := func(k, d string) {
 				if R.NViolations < 30 {
-					R.Violate(k, where+": "+d, map[string]any{"part": "payload", "batch": names, "max_alerts": max})
+					R.Violate(k, where+": "+d, map[string]any{"rerun": true, "part": "payload", "batch": names, "max_alerts": max})
 				} else {
 					R.NViolations++
 				}
